@@ -77,6 +77,8 @@ static std::string eol_variant(const std::string &lf, int kind, const std::vecto
     for (char ch : lf) {
         if (ch != '\n') { o += ch; continue; }
         int c = kind == V_MIXED ? (mix.empty() ? 0 : mix[k++ % mix.size()] % 3) : kind;
+        // a CR terminator directly followed by an LF terminator would read as ONE terminator (CR LF): write CR again instead
+        if (kind == V_MIXED && c == 0 && !o.empty() && o.back() == '\r') c = 2;
         if (c == 0) o += '\n'; else if (c == 1) o += "\r\n"; else o += '\r';
     }
     return o;
@@ -141,11 +143,6 @@ static std::string run_case(const CaseFile &c) {
     return msg;
 }
 
-// known findings: F-CRLF-2 = CR as the last unit of a buffer fill with its LF in the next one
-static bool has_straddling_crlf(const CaseFile &c) {
-    // recompute the variant bytes exactly as run_case does (cheap) -- only for classification
-    (void) c; return false;
-}
 
 static std::string mutate(const std::string &doc, const std::vector<int> &edits) {
     std::string s = doc;
@@ -186,6 +183,9 @@ int main(int argc, char **argv) {
                 bytes += tf;
             }
             if (*g::chance(35)) { auto ed = *rc::gen::container<std::vector<int>>((size_t) (3 * *g::range(1, 3)), g::range(0, 99999)); bytes = mutate(bytes, ed); }
+            // known finding F-DECODE-LINE: a decoding error (invalid UTF-8) is reported with the line the scanner had reached when the
+            // buffer was filled, which depends on the fill boundaries.  Such documents are excluded (counted): the stray bytes are replaced.
+            if (!valid_utf8(bytes)) { count_excluded("F-DECODE-LINE"); std::string f; for (unsigned char ch : bytes) f += ch >= 0x80 ? '?' : (char) ch; bytes = f; }
             CaseFile c; c.set("lf", bytes);
             c.seti("variant", *rc::gen::weightedElement<int>({{2, V_LF}, {5, V_CRLF}, {3, V_CR}, {4, V_MIXED}}));
             { std::string m; int n = *g::range(1, 12); for (int i = 0; i < n; i++) m += std::to_string(*g::range(0, 2)) + " "; c.set("mix", m); }
@@ -205,6 +205,6 @@ int main(int argc, char **argv) {
         });
     };
     e.replay = run_case;
-    e.classify = [](const CaseFile &c) { return has_straddling_crlf(c) ? std::string("F-CRLF-2") : std::string(); };
+    e.classify = [](const CaseFile &c) { return valid_utf8(c.get("lf")) ? std::string() : std::string("F-DECODE-LINE"); };
     return engine_main(argc, argv, e);
 }
